@@ -933,17 +933,19 @@ func init() {
 	Registry["C03"] = func(r *run.Runner, g *Gen, n int) {
 		r.Register(&run.Fn{Name: "ChangeExtendedSpatialIdsZoom", Invoke: callExt}, &run.Fn{Name: "ChangeSpatialIdsZoom", Invoke: callSid},
 			&run.Fn{Name: "HorizontalZoom", Invoke: callH}, &run.Fn{Name: "VerticalZoom", Invoke: callV},
-			&run.Fn{Name: "HorizontalZoomMinMax", Invoke: callMinMax}, &run.Fn{Name: "Sequence", Invoke: callSeq})
+			&run.Fn{Name: "HorizontalZoomMinMax", Invoke: callMinMax}, &run.Fn{Name: "Sequence", Invoke: callSeq},
+			&run.Fn{Name: "History", Invoke: callHist})
 		if n == 0 {
 			return
 		}
 		fixedCases(r)
+		fixedHistories(r)
 		if g.Tier == "thorough" {
 			exhaustive(r)
 		}
 		for i := 0; i < n; i++ {
 			switch p := i % 20; {
-			case p < 9 || p == 19:
+			case p < 9:
 				genExt(r, g, i)
 			case p < 13:
 				genSid(r, g, i)
@@ -971,8 +973,10 @@ func init() {
 				}
 				r.Run(run.Case{Prop: "C03", Fn: "HorizontalZoomMinMax", Tags: tags, Trivial: zin == zout,
 					Args: []w.Val{w.I(zin), w.I(g.HIndex(zin)), w.I(g.HIndex(zin)), w.I(zout)}})
-			default: // 17, 18: related consecutive calls
+			case p == 17:
 				genSeq(r, g)
+			default: // 18, 19: call histories
+				genHist(r, g)
 			}
 		}
 	}
